@@ -837,9 +837,9 @@ fn run_c02(o: &Opts, cx: &mut Ctx) {
     let timing = std::env::var("RVOLE_TIMING").is_ok();
     let t0 = std::time::Instant::now();
     // ---- honest messages are accepted: special inputs / tapes, both variants
-    let hon = (if thorough { 12 } else { 3 }) * o.scale as usize;
+    let hon = (if thorough { 12 } else { 2 }) * o.scale as usize;
     for k in 0..hon {
-        let v = if k % 3 == 2 { Variant::Ot } else { Variant::Ext };
+        let v = if k % 3 == 1 { Variant::Ot } else { Variant::Ext };
         let a = [special_scalar(&mut rng, k), special_scalar(&mut rng, k / 4 + 1)];
         let tweak = [0u32, 1, 2, 3][k % 4];
         let key = key_of(v, if v == Variant::Ot { "na" } else if k % 2 == 0 { "syn" } else { "pipe" }, gen_sid(&mut rng, k), &a, rng.next_u64() >> 1, tweak);
@@ -859,8 +859,8 @@ fn run_c02(o: &Opts, cx: &mut Ctx) {
             let off = v.core_off();
             // ---- single-bit flips
             let mut ps: Vec<usize> = vec![];
-            let (na, ne, nh, no) = match (v, thorough) { (Variant::Ext, false) => (300, E_BYTES * 8, H_BYTES * 8, 0), (Variant::Ext, true) => (2500, E_BYTES * 8, H_BYTES * 8, 0),
-                                                         (Variant::Ot, false) => (50, 48, 48, 40), (Variant::Ot, true) => (600, E_BYTES * 8, H_BYTES * 8, 500) };
+            let (na, ne, nh, no) = match (v, thorough) { (Variant::Ext, false) => (120, E_BYTES * 8, H_BYTES * 8, 0), (Variant::Ext, true) => (2500, E_BYTES * 8, H_BYTES * 8, 0),
+                                                         (Variant::Ot, false) => (30, 32, 32, 24), (Variant::Ot, true) => (600, E_BYTES * 8, H_BYTES * 8, 500) };
             for _ in 0..na { ps.push(off * 8 + rng.gen_range(0..A_BYTES * 8)); }
             for p in [0, 7, 255, 256, ROW * 8 - 1, A_BYTES * 8 - 1] { ps.push(off * 8 + p); }
             let mut e: Vec<usize> = (0..E_BYTES * 8).collect(); e.shuffle(&mut rng); for p in &e[..ne] { ps.push((off + A_BYTES) * 8 + p); }
@@ -894,12 +894,13 @@ fn run_c02(o: &Opts, cx: &mut Ctx) {
             if timing { eprintln!("{} mutations {:?}", v.s(), t1.elapsed()); }
             // ---- splices / replays from another session, another run, other tapes, another input
             let others: Vec<&str> = if thorough { vec!["other-session", "other-session-other-run", "other-run", "other-tapes", "other-input"] }
-                                    else if v == Variant::Ext { vec!["other-session", "other-run", "other-input"] } else { vec!["other-session", "other-input"] };
+                                    else if v == Variant::Ext { vec!["other-session", "other-run", "other-input"] } else { vec!["other-session"] };
             for other in others {
                 let mut regs: Vec<&str> = SPLICE_REGIONS.to_vec();
                 if v == Variant::Ot { regs.extend(["ot_msg2_a", "ot_msg2"]); }
                 for (n, reg) in regs.iter().enumerate() {
                     if !thorough && v == Variant::Ot && !(n % 2 == 0 || *reg == "whole" || reg.starts_with("ot")) { continue; }
+                    if !thorough && other == "other-run" && !(n % 3 == 0 || *reg == "whole" || *reg == "core") { continue; }
                     splice(cx, &base, other, reg);
                 }
             }
